@@ -1,5 +1,27 @@
-import RSV.Model.LeoCert
-/-! umbrella for the C05 check; the proved property files are imported as they land -/
+import RSV.Props.C05
+import RSV.Props.Consts
+/-!
+# C05 umbrella — Leopard Reconstruct
+
+`RSV.Props.C05`: for a fixed erasure set the reconstruct schedule is symbol-local, xor-linear and
+scratch-independent; present shards are never written; data-only mode never writes parity; the
+error-locator table and the schedule are functions of the erasure set.  That the formal-derivative
+decoder inverts the code is established per explored `(d, p, E)` by correspondence (complete over
+contents by linearity), not by a general theorem.
+-/
 namespace RSV.Props.C05all
-theorem C05_placeholder : True := trivial
+open RSV.Model.Leo RSV.Props.C05
+
+/-- the mip-map masks of the error bit field regenerated from the Go source -/
+theorem C05_hi_masks : RSV.Gen.kHiMasks =
+    [0xAAAAAAAAAAAAAAAA, 0xCCCCCCCCCCCCCCCC, 0xF0F0F0F0F0F0F0F0, 0xFF00FF00FF00FF00, 0xFFFF0000FFFF0000] :=
+  RSV.Props.Consts.hi_masks
+
+/-- the cached quantity (error locator) depends only on the erasure set: two calls with the same
+erasure set may share it, two calls with different sets get their own (the cache key is the complete
+erasure set since fix f76f5f8) -/
+theorem C05_locator_fn (C : Ctx) (d p : Nat) (missing missing' : Nat → Bool)
+    (h : ∀ i, i < d + p → missing i = missing' i) : errLocs C d p missing = errLocs C d p missing' :=
+  C05_errLocs_fn C d p missing missing' h
+
 end RSV.Props.C05all
